@@ -68,6 +68,13 @@ var specialElements = map[string]bool{
 	"style":    true,
 	"textarea": true,
 	"title":    true,
+	// Further elements whose content an HTML parser does not tokenize as markup: inside them
+	// only the matching end tag is recognized.
+	"iframe":   true,
+	"noembed":  true,
+	"noframes": true,
+	"noscript": true,
+	"xmp":      true,
 }
 
 // voidElements contains the names of all void elements.
